@@ -559,7 +559,7 @@ class Emitter:
     def __init__(s, mod, stubs):
         s.mod = mod; s.stubs = stubs; s.out = []; s.structs = {}; s.struct_defs = []
         s.need_funcs = collections.OrderedDict(); s.need_globals = collections.OrderedDict()
-        s.protos = {}; s.dispatchers = {}
+        s.protos = {}; s.dispatchers = {}; s.intrinsic_protos = {}
 
     def ctype(s, t):
         m = s.mod
@@ -578,9 +578,9 @@ class Emitter:
     def aggtype(s, t):
         key = s.aggkey(t)
         if key not in s.structs:
-            nm = 'agg%d' % len(s.structs)
-            s.structs[key] = nm
             sz, al = s.mod.size_align(t)
+            nm = 'agg%d_%d' % (max(sz, 1), al)     # stable name: harnesses that model an aggregate-returning callee declare the same type
+            s.structs[key] = nm
             s.struct_defs.append('typedef struct { u8 b[%d]; } __attribute__((aligned(%d))) %s;' % (max(sz, 1), al, nm))
         return s.structs[key]
     def aggkey(s, t):
@@ -1045,8 +1045,12 @@ class Emitter:
             if base.startswith('llvm.eh.typeid.for'): return finish('__ir_typeid_for(%s)' % args[0])
             if base.startswith('llvm.trap'): return finish('__ir_trap()')
             if base.startswith('llvm.'):
-                # generic: call a model named __ir_llvm_xxx
-                return finish('__ir_%s(%s)' % (re.sub(r'[^A-Za-z0-9_]', '_', base), ', '.join(args)))
+                # generic: call a model named __ir_llvm_xxx (prototype emitted with the unit; the harness provides the body)
+                gn = '__ir_' + re.sub(r'[^A-Za-z0-9_]', '_', base)
+                if nm in m.decls:
+                    r_, ar_, _va = m.decls[nm]
+                    s.intrinsic_protos[gn] = '%s %s(%s);' % (s.ctype(r_), gn, ', '.join(s.ctype(t_) for t_ in ar_) or 'void')
+                return finish('%s(%s)' % (gn, ', '.join(args)))
             if getattr(s, 'cur_res', False) and base == 'pistache_verif_yield':
                 k = len(s.res_pcs) + 1; s.res_pcs.append(k)
                 w('  F->yield_point = (int)%s; F->pc = %d; return 1; R_%d: ;' % (args[0], k, k))
@@ -1348,6 +1352,7 @@ def main():
         fo.write(PRELUDE)
         fo.write('\n'.join(em.struct_defs) + '\n')
         fo.write('\n'.join(protos) + '\n')
+        fo.write('\n'.join(sorted(em.intrinsic_protos.values())) + '\n')
         for dn, (rt_, ats, key) in em.dispatchers.items():
             proto = '%s %s(u8* fp%s)' % (rt_, dn, ''.join(', %s a%d' % (t, i) for i, t in enumerate(ats)))
             fo.write('%s;\n' % proto)
